@@ -53,9 +53,33 @@ fn wake(s: &S) {
     CV.notify_all(); // the harness thread waiting in start()
 }
 
+/// How often a waiting thread found the running thread stuck OUTSIDE a scheduling point (blocked
+/// on a real lock that a parked thread holds) and took the baton over.
+pub static TAKEOVERS: std::sync::atomic::AtomicU64 = std::sync::atomic::AtomicU64::new(0);
+
 fn wait_turn(mut s: std::sync::MutexGuard<'static, S>, tid: usize) -> std::sync::MutexGuard<'static, S> {
+    // If the code under test holds a real lock across a scheduling point, the thread that was
+    // handed the baton may block on that lock and never reach its next scheduling point, while the
+    // holder is parked here: a deadlock made by the scheduler, not by the code. Detector (the only
+    // use of real time in the scheduler): if the baton has not moved for 2 s, the lowest waiting
+    // thread takes it over; the take-over is part of the recorded trace (200 + tid).
+    let mut seen = s.points;
     while s.current != Some(tid) {
-        s = if tid < 64 { CVS[tid].wait(s) } else { CV.wait(s) }.unwrap_or_else(|e| e.into_inner());
+        let (g, t) = crate::seams::with_real_clock(|| if tid < 64 { CVS[tid].wait_timeout(s, std::time::Duration::from_secs(2)) } else { CV.wait_timeout(s, std::time::Duration::from_secs(2)) }.unwrap_or_else(|e| e.into_inner()));
+        s = g;
+        if s.current == Some(tid) {
+            break;
+        }
+        if t.timed_out() && s.active {
+            let lowest_waiting = (0..s.threads.len()).find(|&i| s.threads[i] == T::Waiting && Some(i) != s.current);
+            if s.points == seen && lowest_waiting == Some(tid) && s.current.is_some() {
+                s.current = Some(tid);
+                s.trace.push(200u8.saturating_add(tid as u8));
+                TAKEOVERS.fetch_add(1, std::sync::atomic::Ordering::Relaxed);
+                break;
+            }
+            seen = s.points;
+        }
     }
     s
 }
